@@ -1,7 +1,8 @@
 """C10 — scan: leftmost match, earlier arm first, always advances."""
+import re
 from ..engines import e3_siblings as e3
 from ..engines import e1_div
-from ..lib.facts import is_callee, sp_str
+from ..lib.facts import callee_fn, is_callee, sp_str
 from ..lib.trace import Tracer, canon, strip
 
 LEVEL_TEXT = ("Structural feature extraction from the MIR of both scan implementations (strict Scan::execute, lazy "
@@ -43,6 +44,25 @@ def run(prog, rep):
             a, b = feats["strict"].get(k), feats["lazy"].get(k)
             rep.check(a == b, "E3.s-scan", "strict=lazy :: %s" % k, "", "both modes: %s" % (a or "")[:200],
                       "the two scan implementations differ on %s: strict `%s` vs lazy `%s`" % (k, a, b))
+    # the arm regex is the pattern as written: compiled by Regex::new with the default options
+    rep.rule("C10.rx", "an arm's regex is Regex::new(<the parsed pattern string>): no builder options (multi-line, case-insensitive, …) and no rewriting of the pattern text")
+    ps = [f for f in prog.fns.values() if f.name == "parse_statement" and f.self_path == "tsg::parser::Parser"]
+    if len(ps) != 1:
+        rep.violation("C10.rx", "anchor-lost:parse_statement", "", "not found")
+    else:
+        f = ps[0]
+        ptr = Tracer(f.body)
+        from ..lib.trace import canon_full, inline_local_calls
+        arms = [st for b in sorted(f.body.reachable()) for st in f.body.blocks[b]["stmts"] if st["k"] == "assign" and st["rv"]["k"] == "aggregate" and (st["rv"].get("adt") or "").endswith("ast::ScanArm")]
+        ok = len(arms) == 1
+        got = ""
+        if ok:
+            d = dict(zip(arms[0]["rv"]["fields"], arms[0]["rv"]["ops"]))
+            got = canon_full(inline_local_calls(prog, ptr.operand(d["regex"])))
+            ok = re.match(r"^\(Try::branch\((Result::map_err\()?Regex::new\(&\*(Deref::deref\(&)?\(Try::branch\(Parser::parse_string\(&\*arg:self\)\) as Continue\)\.0\)?\)", got) is not None
+        builder = [callee_fn(t)["def"] for g in prog.fns.values() if g.body is not None and g.crate.prefix == "tsg" for _b, t in g.body.calls() if is_callee(t, r"regex::(RegexBuilder|RegexSetBuilder|bytes::RegexBuilder)::")]
+        rep.check(ok and not builder, "C10.rx", "parse_statement :: arm regex", f.loc(), "ScanArm.regex = Regex::new(&parse_string()?)",
+                  "a scan arm's regex is not compiled from the written pattern with default options (%s%s)" % (got[:140], "; builder calls: %s" % sorted(set(builder)) if builder else ""))
     # nullable rejection in the checker
     chk = [f for f in prog.find(self_ty="tsg::ast::Scan", name="check")]
     if len(chk) != 1:
